@@ -773,8 +773,12 @@ pub fn dump_state(state: &proto_vulcan::state::State<DU, DE>, vars: &Vars) -> St
             }
             .to_string();
             if name == "diseq" {
-                // operands come as var, term, var, term, … in hash order: sort the pairs
-                let mut pairs: Vec<String> = ops.chunks(2).map(|p| format!("{}!={}", p[0], p.get(1).cloned().unwrap_or_default())).collect();
+                // the pairs of the disequality (its own substitution map), walk*ed in the state, sorted
+                let mut pairs: Vec<String> = match c.as_any().downcast_ref::<proto_vulcan::relation::diseq::DisequalityConstraint<DU, DE>>() {
+                    // canonical form: each pair's term resolved in the constraint's OWN (triangular) map first
+                    Some(d) => d.smap_ref().iter().map(|(k, v)| format!("{}!={}", show(k), show(&d.smap_ref().walk_star(v)))).collect(),
+                    None => vec!["?".into()],
+                };
                 pairs.sort();
                 format!("diseq {}", pairs.join(" & "))
             } else {
